@@ -236,7 +236,9 @@ pub fn run(ctx: &mut Ctx) {
         } else {
             ctx.count("corpus_valid_rejected");
         }
-        for cut in 0..b.len() {
+        // under Miri/valgrind every 5th truncation point (the native run covers all of them)
+        let step = if ctx.slow_tool { 5 } else { 1 };
+        for cut in (0..b.len()).step_by(step) {
             check_parse(ctx, "cut", ci, &b[..cut]);
             ctx.add(&format!("cut_cases_{}", tname), 1);
         }
@@ -244,8 +246,8 @@ pub fn run(ctx: &mut Ctx) {
         for f in &enc.fields {
             let orig = get(b, f.off, f.width);
             let max = if f.width == 1 { 0xFF } else { 0xFFFF };
-            for v in [orig.wrapping_sub(1) & max, (orig + 1) & max, 0, max, 0xC0 & max, 0x3F] {
-                if v == orig {
+            for (vi, v) in [orig.wrapping_sub(1) & max, (orig + 1) & max, 0, max, 0xC0 & max, 0x3F].into_iter().enumerate() {
+                if v == orig || (ctx.slow_tool && vi >= 2) {
                     continue;
                 }
                 put(&mut m, f.off, f.width, v);
